@@ -389,6 +389,10 @@ class SpecialValueCanonicalization(ComparisonExpressionTransformer):
     in constant values.
     """
     def transform_comparison(self, ast):
+        if ast.operator in ("MATCHES", "LIKE"):
+            # The constant is a regular expression / a template, not a value.
+            return ast, False
+
         if ast.lhs.object_type_name == "windows-registry-key":
             windows_reg_key(ast)
 
